@@ -44,10 +44,31 @@ var c06Families = []bgp.Family{bgp.RF_IPv4_UC, bgp.RF_IPv6_UC}
 // projection of a route (list of attributes) to the recorded view
 
 type c06View struct {
-	V     string            `json:"v"`    // "adjin" | "glob" | "n2"
-	St    string            `json:"st"`   // "gone" | "old" | "new"
-	Attrs map[string]string `json:"attrs"` // "t<type>" -> "<O/T bits>:<value hex>"
-	Ndup  int               `json:"ndup"` // attributes whose type occurs more than once in the route
+	V     string            // "adjin" | "glob" | "n2"
+	St    string            // "gone" | "old" | "new"
+	Attrs map[string]string // "t<type>" -> "<O/T bits>:<value hex>"
+	Ndup  int               // attributes whose type occurs more than once in the route
+}
+
+// attributes are only recorded for routes that came from the message under test
+func (v c06View) MarshalJSON() ([]byte, error) {
+	if v.St != "new" {
+		return json.Marshal(map[string]any{"v": v.V, "st": v.St})
+	}
+	return json.Marshal(map[string]any{"v": v.V, "st": v.St, "attrs": v.Attrs, "ndup": v.Ndup})
+}
+
+func c06PreObs(o c06Obs) map[string]any {
+	nold, n := 0, 0
+	for _, vs := range o.Views {
+		for _, v := range vs {
+			n++
+			if v.St == "old" {
+				nold++
+			}
+		}
+	}
+	return map[string]any{"sess": o.Sess, "nold": nold, "nviews": n}
 }
 
 func c06Gone(v string) c06View {
@@ -315,7 +336,7 @@ func TestVerifC06E2E(t *testing.T) {
 				vpMust(x.sendRaw(raw))
 				synctest.Wait()
 			}
-			tr.Emit(map[string]any{"ev": "Pre", "obs": c06Observe(ss, x, n2, n2v)})
+			tr.Emit(map[string]any{"ev": "Pre", "obs": c06PreObs(c06Observe(ss, x, n2, n2v))})
 			m := c06Base(sc.Base, sc.Pt)
 			c06ApplyFaults(m, sc.Pt, sc.Faults)
 			raw := m.bytes()
@@ -455,7 +476,7 @@ func TestVerifC06WB(t *testing.T) {
 			}
 			w.peer.handleUpdate(fm)
 		}
-		tr.Emit(map[string]any{"ev": "Pre", "obs": w.observe(true, "none", nil)})
+		tr.Emit(map[string]any{"ev": "Pre", "obs": c06PreObs(w.observe(true, "none", nil))})
 		m := c06Base(sc.Base, sc.Pt)
 		c06ApplyFaults(m, sc.Pt, sc.Faults)
 		raw := m.bytes()
